@@ -618,3 +618,53 @@ func (r *Report) FieldStoredIs(id string, fn *ssa.Function, typ, field string, p
 	}
 	r.OK(key, rule, r.P.Pos(fn.Pos()), fmt.Sprintf("%d store(s)", n), true)
 }
+
+// LoopContinues: on every edge on which cond holds, control stays inside the innermost enclosing loop until its header is
+// reached again — the element is skipped, the loop is neither left nor the function returned from ("one bad element does
+// not stop the processing of the ones after it").
+func (r *Report) LoopContinues(id string, fn *ssa.Function, cond Check, min int) {
+	rule := fmt.Sprintf("ORDER: whenever [%s] holds inside the loop, the loop goes on with the next element (no return, no break)", cond.Desc)
+	if fn == nil {
+		r.Lost(id, rule, "anchored function not found")
+		return
+	}
+	key := id + " @ " + r.P.FuncName(fn)
+	g := &Gate{Fn: fn, Check: Check{NoTail: true}}
+	run := &gateRun{p: r.P, fn: fn, g: g, checkVals: map[ssa.Value]Polarity{}, passEdges: EdgeSet{}}
+	edges := EdgeSet{}
+	run.findPassEdges(cond, edges)
+	r.Sites += len(edges)
+	if min == 0 {
+		min = 1
+	}
+	if len(edges) < min {
+		r.Bad(key, rule, r.P.Pos(fn.Pos()), fmt.Sprintf("condition [%s] found on %d branches (expected >= %d)", cond.Desc, len(edges), min))
+		return
+	}
+	loops := Loops(fn)
+	var bad []string
+	for e := range edges {
+		l := InnermostLoop(loops, e.From)
+		if l == nil {
+			bad = append(bad, fmt.Sprintf("the branch at %s is not inside a loop", r.P.Pos(blockPos(e.From))))
+			continue
+		}
+		if e.To() == l.Header {
+			continue
+		}
+		for b := range ReachFromEdge(e, nil, map[*ssa.BasicBlock]bool{l.Header: true}) {
+			if b == l.Header {
+				continue
+			}
+			if !l.Body[b] {
+				bad = append(bad, fmt.Sprintf("from the branch at %s the loop is left at %s before the next element", r.P.Pos(blockPos(e.From)), r.P.Pos(blockPos(b))))
+				break
+			}
+		}
+	}
+	if len(bad) > 0 {
+		r.Bad(key, rule, r.P.Pos(fn.Pos()), strings.Join(uniqStrings(sortStrings(bad)), "; "))
+		return
+	}
+	r.OK(key, rule, r.P.Pos(fn.Pos()), fmt.Sprintf("%d condition edge(s)", len(edges)), true)
+}
